@@ -19,9 +19,9 @@ type DateCase struct {
 
 // TodCase: a time of day supplied as data.
 type TodCase struct {
-	Zone                string `json:"zone"`
-	Y, Mo, D, H, Mi, S  int
-	Target              string `json:"target"` // useTimezone target ("" = none)
+	Zone               string `json:"zone"`
+	Y, Mo, D, H, Mi, S int
+	Target             string `json:"target"` // useTimezone target ("" = none)
 }
 
 var c19Date *eng.Kind[DateCase]
@@ -39,9 +39,9 @@ func c19ZoneCount() int {
 
 func init() {
 	c := eng.Register(&eng.Check{
-		ID:    "C19",
-		Title: "Date builtins agree with the proleptic Gregorian calendar and preserve instants",
-		Rule: "date(y,m,d) for every y in the stated year set x m in -14..26 x d in -40..72 with year month day hour minute second weekDay millSecond applied inside the language; addDate over base dates x shift triples; times of day supplied as data; useTimezone over valid and invalid zone names; timeFormat with numeric layouts; now/toDay bracketed by the wall clock; every worker process runs under its own TZ; civil fields and Unix milliseconds are compared with an independent days-from-civil computation; distinct = distinct (civil date, weekday) results",
+		ID:          "C19",
+		Title:       "Date builtins agree with the proleptic Gregorian calendar and preserve instants",
+		Rule:        "date(y,m,d) for every y in the stated year set x m in -14..26 x d in -40..72 with year month day hour minute second weekDay millSecond applied inside the language; addDate over base dates x shift triples; times of day supplied as data; useTimezone over valid and invalid zone names; timeFormat with numeric layouts; now/toDay bracketed by the wall clock; every worker process runs under its own TZ; civil fields and Unix milliseconds are compared with an independent days-from-civil computation; distinct = distinct (civil date, weekday) results",
 		TrustedBase: []string{"days-from-civil / civil-from-days arithmetic in checks/c19.go", "Go zone tables for UTC offsets only"},
 		Assumptions: []string{"local midnights that do not exist in a zone are skipped and counted; ambiguous ones accept either instant", "the clock functions are only bracketed"},
 		Run:         runC19,
